@@ -1639,3 +1639,8 @@ mod tests {
         Ok(())
     }
 }
+
+// Verification hook (guarded): Kani harnesses live outside the repository.
+#[cfg(kani)]
+#[path = "/verif/kani/relay_server.rs"]
+mod verif_kani;
